@@ -1,11 +1,146 @@
 /-
-C60 — ICAP adaptation delivers exactly the virgin or the adapted message (ModXact decision model; partial: the end-to-end
-behaviour of the binary is tied to this model by scenario correspondence, see props/C60.py).
+C60 — ICAP adaptation delivers exactly the virgin or the adapted message.
+
+Model: SquidModel/Icap/ModXact.lean (every method of src/adaptation/icap/ModXact.cc / Xaction.cc that decides what is put
+into the adapted pipe and which head is forwarded) + SquidModel/Icap/Outcome.lean (Launcher/Iterator/initiator side).
+All theorems quantify over the configuration, the virgin body and EVERY event history (`run (init cfg v) es`): arbitrary
+interleavings of virgin data, writes, ICAP reply fragments, errors, timeouts, consumer progress.
+
+partial: the end-to-end behaviour of the binary is tied to this model by scenario correspondence (props/C60.py).
+The statement's last sentence is false of the code: see the `_counterexample` theorems and the `_partial` theorem.
 -/
+import SquidModel.Icap.InvStep
 import SquidModel.Icap.Outcome
 
 namespace SquidModel.C60
-open SquidModel SquidModel.Icap
+open SquidModel SquidModel.Icap SquidModel.Gen
+
+/-- **output_is_virgin_or_adapted_or_error.** Whatever the ICAP server and everybody else do, the bytes handed to the consumer of
+the adaptation result are: nothing when no head was forwarded; after the clone of the virgin head a prefix of the virgin body;
+after the adapted head a prefix of the adapted body the ICAP server sent — followed, only when the server asked for it with
+`use-original-body=pos`, by a contiguous piece of the virgin body starting at `pos`. -/
+theorem output_is_virgin_or_adapted_or_error (cfg : Cfg) (v : Bytes) (es : List Ev) :
+    let s := run (init cfg v) es
+    (s.head = .none → s.out = []) ∧
+    (s.head = .virginClone → ∃ n, n ≤ s.put ∧ s.out = s.v.take n) ∧
+    (s.head = .adapted → s.uob = none → ∃ rest, s.out ++ rest = s.recv) ∧
+    (s.head = .adapted → ∀ pos, s.uob = some pos → ∃ n, pos + n ≤ s.put ∧ s.out = s.recv ++ (s.v.drop pos).take n) := by
+  have m := (inv_reachable cfg v es).main
+  generalize run (init cfg v) es = s at m ⊢
+  dsimp only
+  refine ⟨fun h => (m.nopipe (m.hnone h).1).1, fun h => ⟨_, (m.clone h).2.1, (m.clone h).1⟩, fun h hu => ⟨_, (m.plain h hu).1⟩, fun h pos hu => ?_⟩
+  have c := m.partEcho h pos hu
+  exact ⟨s.vSending.start - pos, by omega, c.2.2.2.1⟩
+
+/-- **never_mixed.** The sender only echoes virgin bytes under the virgin head clone or after `use-original-body`; and a forwarded
+adapted head without `use-original-body` is never followed by a virgin byte: everything delivered plus everything still pending is
+exactly what the ICAP server sent. -/
+theorem never_mixed (cfg : Cfg) (v : Bytes) (es : List Ev) :
+    let s := run (init cfg v) es
+    (s.sending = .virgin → s.head = .virginClone ∨ (s.head = .adapted ∧ s.uob.isSome = true)) ∧
+    (s.head = .adapted → s.uob = none → s.out ++ s.pending = s.recv) ∧
+    (s.head = .virginClone → s.uob = none) := by
+  have m := (inv_reachable cfg v es).main
+  generalize run (init cfg v) es = s at m ⊢
+  dsimp only
+  exact ⟨m.sendV, fun h hu => (m.plain h hu).1, fun h => (m.clone h).2.2⟩
+
+/-- **complete_means_intact.** An adapted pipe that ended *nicely* (the consumer sees a complete body) carries the whole virgin body
+(virgin head), the whole adapted body up to its last-chunk (adapted head), or the whole adapted body followed by the whole virgin
+suffix from `pos` on (use-original-body). -/
+theorem complete_means_intact (cfg : Cfg) (v : Bytes) (es : List Ev) :
+    let s := run (init cfg v) es
+    s.outSt = .endedOk →
+      (s.head = .virginClone → s.out = s.v) ∧
+      (s.head = .adapted → s.uob = none → s.out = s.recv ∧ s.lastSeen.isSome = true) ∧
+      (s.head = .adapted → ∀ pos, s.uob = some pos → s.out = s.recv ++ s.v.drop pos) := by
+  have m := (inv_reachable cfg v es).main
+  generalize run (init cfg v) es = s at m ⊢
+  dsimp only
+  intro he
+  have e := m.ended he
+  refine ⟨fun h => ?_, fun h hu => ?_, fun h pos hu => ?_⟩
+  · rw [(m.clone h).1, e.clone h]; exact List.take_length
+  · have p := e.plain h hu
+    have q := (m.plain h hu).1
+    rw [p.1, List.append_nil] at q
+    exact ⟨q, p.2⟩
+  · have c := m.partEcho h pos hu
+    have hs := e.part h (by rw [hu]; rfl)
+    rw [c.2.2.2.1, hs]
+    congr 1
+    rw [List.take_of_length_le]
+    rw [List.length_drop]
+    exact Nat.le_refl _
+
+/-- **a head comes first.** Body bytes are only ever handed over after a head was. -/
+theorem no_body_without_head (cfg : Cfg) (v : Bytes) (es : List Ev) :
+    let s := run (init cfg v) es
+    s.out ≠ [] → s.head ≠ .none := by
+  have m := (inv_reachable cfg v es).main
+  generalize run (init cfg v) es = s at m ⊢
+  dsimp only
+  intro ho hh
+  exact ho (m.nopipe (m.hnone hh).1).1
+
+/-- **echo_needs_intact_prefix.** What echoMore() copies out of the virgin pipe buffer is the virgin body at the echo offset — provided
+the bytes before that offset are the only ones that were consumed (`virginConsumed <= offset`, the check in virginContentSize()). -/
+theorem echo_needs_intact_prefix (cfg : Cfg) (v : Bytes) (es : List Ev) (n : Nat) :
+    let s := run (init cfg v) es
+    s.consumed ≤ s.vSending.start → s.vSending.start + n ≤ s.put →
+      (s.buf.drop (s.vSending.start - s.consumed)).take n = (s.v.drop s.vSending.start).take n := by
+  have m := (inv_reachable cfg v es).main
+  generalize run (init cfg v) es = s at m ⊢
+  dsimp only
+  intro hc hs
+  rw [m.buf_eq, List.drop_take, List.drop_drop, List.take_take]
+  have e1 : s.consumed + (s.vSending.start - s.consumed) = s.vSending.start := by omega
+  have e2 : min n (s.put - s.consumed - (s.vSending.start - s.consumed)) = n := by omega
+  rw [e1, e2]
+
+/-- ... and echoMore() refuses (throws, copies nothing) when bytes at or after the echo offset were already consumed. -/
+theorem echo_refuses_consumed_prefix (s : St) (ht : s.thrown = false) (h : s.vSending.start < s.consumed) :
+    (echoMore s).thrown = true ∧ (echoMore s).out = s.out := by
+  have h2 : (decide (s.consumed ≤ s.vSending.start) && decide (s.vSending.start ≤ s.put)) = false := by
+    simp only [Bool.and_eq_false_iff, decide_eq_false_iff_not]; left; omega
+  by_cases h1 : (s.sending == .virgin && s.outSt == .isOpen && s.vSending.st == .active) = true
+  · simp [echoMore, seq, must, Icap.cond, skip, throwNow, h1, h2, ht]
+  · simp [echoMore, seq, must, Icap.cond, throwNow, h1]
+
+/-- **bypass_flag_means_nothing_used.** While `canStartBypass` is set, no virgin byte was released, no head was forwarded, nothing
+was put into the adapted pipe: the virgin message is intact and unused. -/
+theorem bypass_flag_means_nothing_used (cfg : Cfg) (v : Bytes) (es : List Ev) :
+    let s := run (init cfg v) es
+    s.canStartBypass = true → s.consumed = 0 ∧ s.answer ≠ .forward ∧ s.out = [] ∧ s.head ≠ .virginClone ∧ s.buf = s.v.take s.put := by
+  have m := (inv_reachable cfg v es).main
+  generalize run (init cfg v) es = s at m ⊢
+  dsimp only
+  intro hb
+  have b := m.byp hb
+  refine ⟨b.1, b.2.1, b.2.2.1, b.2.2.2, ?_⟩
+  rw [m.buf_eq, b.1]; simp
+
+/-- **bypass_before_adapted_use_yields_virgin_partial.** Full statement (false, see the counterexamples below): "with bypass enabled,
+an ICAP failure before any adapted content was used yields the virgin message". Proved part: whenever an exception is bypassed
+(bypassFailure() runs to its end, which it can only do while `canStartBypass` held, i.e. with the virgin message intact and unused),
+the job goes on with the clone of the virgin head installed and the sender echoing or done, all invariants hold again, so by
+`output_is_virgin_or_adapted_or_error`/`complete_means_intact` the consumer gets the virgin body and nothing else. The excluded
+region is the explicit hypothesis `(bypassFailure _).thrown = false`. -/
+theorem bypass_before_adapted_use_yields_virgin_partial (s : St) (m : Main s)
+    (hok : (bypassFailure { s with thrown := false }).thrown = false) :
+    let t := bypassFailure { s with thrown := false }
+    Main t ∧ Aux t ∧ t.head = .virginClone ∧ (t.sending = .virgin ∨ t.sending = .done) ∧ t.parsing = .done ∧
+    (∃ n, t.out = t.v.take n) ∧ (t.outSt = .endedOk → t.out = t.v) := by
+  intro t
+  have m0 : Main { s with thrown := false } := main_setFlags s m false s.crashed s.stopped
+  have b := triM_bypassFailure _ m0 trivial
+  have q := (b.2 hok).2
+  have hh : t.head = .virginClone := q.2.2
+  refine ⟨b.1, (b.2 hok).1, hh, q.1, q.2.1, ⟨_, (b.1.clone hh).1⟩, fun he => ?_⟩
+  rw [(b.1.clone hh).1, (b.1.ended he).clone hh]; exact List.take_length
+
+/-- every reachable state satisfies the invariants the theorems above rest on -/
+theorem reachable_invariant (cfg : Cfg) (v : Bytes) (es : List Ev) : Inv (run (init cfg v) es) := inv_reachable cfg v es
 
 /-- once the job is gone no event changes anything -/
 theorem stopped_is_final (s : St) (es : List Ev) (h : s.stopped = true) : run s es = s := by
@@ -15,5 +150,86 @@ theorem stopped_is_final (s : St) (es : List Ev) (h : s.stopped = true) : run s 
     have : step s e = s := by simp [step, h]
     simp [run, List.foldl, this]
     exact ih s h
+
+/-! ### counterexamples: regions where the real code answers a bypassable failure with an error (or dies)
+
+A small pipe capacity (8 bytes) keeps the witnesses short; the e2e witnesses with the real 64 KB capacity are in corpus/C60. -/
+
+def small : Cfg := { respmod := true, bypass := true, hasBody := true, sizeKnown := true, maxCapacity := 8, backupLimit := 8, reserve := 1 }
+def upTo : List Ev := [.produce 3, .prodEnd, .connected, .wrote, .wrote]
+
+/-- bypass=1, nothing adapted was used, virgin body (3 bytes) fully buffered; the ICAP server answers with status 500.
+handleUnknownScode() calls stopBackup() before throwing, prepEchoing() then cannot plan the echo: the recipient gets an error. -/
+theorem bypass_lost_after_error_status_counterexample :
+    IcapConsts.replanAfterStopBackup = false →
+    let s := run (init small [1, 2, 3]) (upTo ++ [.rdIcap 500 false false false])
+    s.bypassed = true ∧ s.consumed = 0 ∧ outcome s = .error := by decide +kernel
+
+/-- the same failure when no backup had been planned (body of unknown length, no preview): the bypass works -/
+def wNoBackup : St := run (init { small with sizeKnown := false } [1, 2, 3]) (upTo ++ [.rdIcap 500 false false false, .space 3])
+example : outcome wNoBackup = .virgin ∧ wNoBackup.out = [1, 2, 3] := by decide +kernel
+
+/-- bypass=1, preview, body of unknown length: after 100 Continue (no 204 outside the preview possible) the server closes.
+handle100Continue() called stopBackup(); the virgin body is still completely buffered, yet the recipient gets an error. -/
+theorem bypass_lost_after_100_continue_counterexample :
+    IcapConsts.replanAfterStopBackup = false →
+    let s := run (init { small with sizeKnown := false, previewWanted := some 1 } [1, 2, 3])
+      [.produce 3, .connected, .wrote, .wrote, .rdIcap 100 false false false, .wrote, .prodEnd, .wrote, .rdEof]
+    s.bypassed = true ∧ s.consumed = 0 ∧ outcome s = .error := by decide +kernel
+
+/-- bypass=1: the ICAP 200 status line and header arrived, the adapted HTTP head did not: the connection closes. The half-built adapted
+head (Must(!adapted.header)) and the stopped backup make the bypass fail. -/
+theorem bypass_lost_after_200_status_counterexample :
+    IcapConsts.dropPartialAdaptedHead = false →
+    let s := run (init small [1, 2, 3]) (upTo ++ [.rdIcap 200 true true false, .rdEof])
+    s.bypassed = true ∧ s.consumed = 0 ∧ s.out = [] ∧ outcome s = .error := by decide +kernel
+
+/-- RESPMOD, bypass=1: a read error (RST) ends the job through mustStop(), not through an exception; Client::handleAdaptationAborted()
+ignores `bypassable`: error. The same history in REQMOD is bypassed by ClientHttpRequest::handleAdaptationFailure(). -/
+theorem respmod_read_error_not_bypassed_counterexample :
+    IcapConsts.readErrorThrows = false →
+    outcome (run (init small [1, 2, 3]) (upTo ++ [.rdError])) = .error ∧
+    outcome (run (init { small with respmod := false } [1, 2, 3]) (upTo ++ [.rdError])) = .virgin := by decide +kernel
+
+/-- a 204 nobody offered to honour, after virgin bytes were released (12-byte body, 8-byte pipe) and while the body is still being written:
+the echo is planned at offset 0 < virginConsumed, echoMore() throws, swanSong() -> stopWriting() -> virginConsume() throws again,
+outside any try block: the process dies. -/
+theorem unsolicited_204_crash_counterexample :
+    IcapConsts.planChecksConsumed = false →
+    let s := run (init { small with bypass := false, sizeKnown := false } [1, 2, 3, 4, 5, 6, 7, 8, 9, 10, 11, 12])
+      [.produce 12, .connected, .wrote, .wrote, .rdIcap 204 false false false]
+    s.consumed = 7 ∧ outcome s = .crash := by decide +kernel
+
+/-- a 206 with a body but without an encapsulated HTTP head: makeAdaptedBodyPipe() dereferences the nil adapted.header -/
+theorem headless_206_crash_counterexample :
+    IcapConsts.validates206 = false →
+    outcome (run (init { small with bypass := false, allow206 := true, previewWanted := some 1 } [1, 2, 3])
+      (upTo ++ [.rdIcap 206 false true false])) = .crash := by decide +kernel
+
+/-! ### non-vacuity: the good outcomes are reachable -/
+
+/-- 204 inside the preview: the whole virgin body is echoed -/
+def w204 : St := run (init { small with bypass := false, previewWanted := some 1 } [1, 2, 3]) (upTo ++ [.rdIcap 204 false false false, .space 3])
+example : outcome w204 = .virgin ∧ w204.out = [1, 2, 3] ∧ w204.outSt = .endedOk := by decide +kernel
+
+/-- 200 with an adapted body -/
+def w200 : St := run (init { small with bypass := false } [1, 2, 3]) (upTo ++ [.rdIcap 200 true true false, .rdHttpHead, .rdBody [9, 9], .rdLast none])
+example : outcome w200 = .adapted ∧ w200.out = [9, 9] ∧ w200.outSt = .endedOk := by decide +kernel
+
+/-- 200 cut inside the body: adapted head, visibly truncated body -/
+def wCut : St := run (init { small with bypass := false } [1, 2, 3]) (upTo ++ [.rdIcap 200 true true false, .rdHttpHead, .rdBody [9], .rdEof])
+example : outcome wCut = .adaptedTruncated ∧ wCut.out = [9] := by decide +kernel
+
+/-- bypass of a connection closed without a reply -/
+def wBypass : St := run (init small [1, 2, 3]) (upTo ++ [.rdEof, .space 3])
+example : wBypass.bypassed = true ∧ outcome wBypass = .virgin ∧ wBypass.out = [1, 2, 3] := by decide +kernel
+
+/-- 206 with use-original-body=1: adapted prefix, then the virgin body from offset 1 -/
+def w206 : St := run (init { small with bypass := false, allow206 := true, previewWanted := some 1 } [1, 2, 3])
+  (upTo ++ [.rdIcap 206 true true false, .rdHttpHead, .rdBody [9], .rdLast (some 1), .space 5])
+example : outcome w206 = .adapted ∧ w206.out = [9, 2, 3] := by decide +kernel
+
+/-- the hypothesis of `bypass_before_adapted_use_yields_virgin_partial` is satisfiable -/
+example : (bypassFailure { run (init small [1, 2, 3]) upTo with thrown := false }).thrown = false := by decide +kernel
 
 end SquidModel.C60
